@@ -10,6 +10,7 @@ import json
 import logging
 import os
 import sys
+import weakref
 
 sys.path.insert(0, os.path.dirname(os.path.abspath(__file__)))
 import dlib  # noqa: E402
@@ -121,8 +122,10 @@ def run_case(case, emit=None):
                 pool[op[1]].sync_trait(NAMES[op[2]], pool[op[3]], alias=NAMES[op[4]], mutual=bool(op[5]),
                                        remove=True)
             elif k == "Collect":
+                wr = weakref.ref(pool[op[1]])
                 pool[op[1]] = None
-                gc.collect()
+                if wr() is not None:      # only objects caught in a cycle need the collector (8 ms per run)
+                    gc.collect()
             else:
                 raise RuntimeError("unknown op %r" % (op,))
         except Exception as e:  # noqa: BLE001
